@@ -136,6 +136,27 @@ func genCase(t *rapid.T, nodeFailure bool) Case {
 		c.Cause = "successor-left+"
 	}
 	causes := []string{"close", "timeout", "protocol", "disconnect", "disconnect+close"}
+	if steps[len(steps)-1].ClientID != "dying" && rapid.IntRange(0, 5).Draw(t, "goneBeforeConnack") == 0 && c.Cause == "" {
+		// the dying client itself connects last, and is gone before it reads its CONNACK
+		for i := range steps {
+			if steps[i].Op == "connect" && steps[i].ClientID == "dying" {
+				d := steps[i]
+				steps = append(steps[:i], steps[i+1:]...)
+				var keep []sim.Step
+				for _, st := range steps {
+					if st.C != 0 {
+						keep = append(keep, st)
+					}
+				}
+				d.Op = "connectclose"
+				steps = append(keep, d)
+				break
+			}
+		}
+		c.Cause = "gone-before-connack"
+		c.Steps = append(steps, sim.Step{Op: "sub", C: 1, Filters: []string{"w/#"}, QoS: []int{0}})
+		return c
+	}
 	if nodeFailure {
 		causes = []string{"failnode", "failnode", "disconnect+failnode", "close+failnode"}
 	}
